@@ -36,8 +36,10 @@ import (
 	"strconv"
 	"strings"
 	"sync"
+	"sync/atomic"
 	"time"
 
+	"github.com/opencontainers/go-digest"
 	ocispec "github.com/opencontainers/image-spec/specs-go/v1"
 	"oras.land/oras-go/v2/content"
 	"oras.land/oras-go/v2/content/file"
@@ -320,6 +322,16 @@ func runRaw(g *dag.Graph, ops []string, origin string) {
 		case 'M':
 			items := strings.Split(o[1:], "|")
 			errs := make([]error, len(items))
+			answers := make([][]ocispec.Descriptor, len(items))
+			mayBe := map[int]bool{} // present before the block or indexed inside it
+			for i := range present {
+				mayBe[i] = true
+			}
+			for _, it := range items {
+				if i, cerr := strconv.Atoi(it[1:]); cerr == nil && it[0] == 'i' && i >= 0 && i < len(g.Nodes) {
+					mayBe[i] = true
+				}
+			}
 			var wg sync.WaitGroup
 			start := make(chan struct{})
 			for k, it := range items {
@@ -337,7 +349,7 @@ func runRaw(g *dag.Graph, ops []string, origin string) {
 					case 'r':
 						mem.Remove(g.Nodes[i].Desc)
 					case 'q':
-						mem.Predecessors(ctx, g.Nodes[i].Desc)
+						answers[k], _ = mem.Predecessors(ctx, g.Nodes[i].Desc)
 					}
 				}(k, it[0], i)
 			}
@@ -362,6 +374,26 @@ func runRaw(g *dag.Graph, ops []string, origin string) {
 					}
 				case 'r':
 					delete(present, i)
+				case 'q':
+					// an answer given while other operations run: never a node that does not reference
+					// the queried one or that was neither present nor being indexed, never twice
+					_, ids, unk := u.showDescs(answers[k])
+					seen := map[int]bool{}
+					for _, p := range ids {
+						refs := false
+						for _, sc := range g.Nodes[p].Succ {
+							if sc == i {
+								refs = true
+							}
+						}
+						if !refs || !mayBe[p] || seen[p] {
+							fail("pred-anytime-extra", fmt.Sprintf("concurrent Predecessors(%d) returned %v", i, ids))
+						}
+						seen[p] = true
+					}
+					if unk > 0 {
+						fail("pred-anytime-extra", fmt.Sprintf("concurrent Predecessors(%d) returned %d unknown descriptors", i, unk))
+					}
 				}
 			}
 			run.Count("raw-concurrent-mixed-block")
@@ -616,6 +648,8 @@ type xstore struct {
 	sawGC, sawDelete, sawReopen, sawCascade bool
 	gcHung bool
 	origin string
+	autoSaveOff bool // Store.AutoSaveIndex was set to false on the current store
+	nameIDs     map[string]int
 	// store-level model (Model/GraphStore.v): operations and observations
 	sops, stoks, lastSweep []string
 }
@@ -670,6 +704,113 @@ func (e *xstore) refreshStored() (vanished []int) {
 }
 
 // sweep queries every node and judges the answers.
+// blockWatch queries Predecessors WHILE a concurrent block runs (theorem
+// C07_concurrent_anytime): at every moment every answer must consist of stored-or-being-pushed
+// nodes that do reference the queried node, without duplicates; and it must contain every
+// referencing node that was stored before the block or whose Push had already returned when
+// the query started (unless the block deletes).
+type blockWatch struct {
+	e         *xstore
+	pre       map[int]bool
+	inBlock   map[int]bool
+	done      []atomic.Bool
+	noMissing bool
+	stop      chan struct{}
+	fin       chan struct{}
+	queries   int
+	bad       string
+	badSig    string
+}
+
+func (e *xstore) watchBlock(pushIDs []int, hasDelete bool) *blockWatch {
+	w := &blockWatch{e: e, pre: map[int]bool{}, inBlock: map[int]bool{}, done: make([]atomic.Bool, len(e.u.g.Nodes)),
+		noMissing: hasDelete, stop: make(chan struct{}), fin: make(chan struct{})}
+	for i, ok := range e.stored {
+		if ok {
+			w.pre[i] = true
+		}
+	}
+	for _, i := range pushIDs {
+		w.inBlock[i] = true
+	}
+	st := e.st
+	go func() {
+		defer close(w.fin)
+		g := e.u.g
+		for k := 0; ; k++ {
+			select {
+			case <-w.stop:
+				return
+			default:
+			}
+			n := g.Nodes[k%len(g.Nodes)]
+			var completed []int
+			for i := range w.done {
+				if w.done[i].Load() {
+					completed = append(completed, i)
+				}
+			}
+			ds, err := st.Predecessors(ctx, n.Desc)
+			w.queries++
+			if err != nil || w.bad != "" {
+				continue
+			}
+			_, ids, unk := e.u.showDescs(ds)
+			if unk > 0 {
+				w.bad, w.badSig = fmt.Sprintf("Predecessors(%d) during the block returned %d unknown descriptors", n.ID, unk), "pred-anytime-extra"
+				continue
+			}
+			got := map[int]bool{}
+			for _, p := range ids {
+				refs := false
+				for _, s := range g.Nodes[p].Succ {
+					if s == n.ID {
+						refs = true
+					}
+				}
+				switch {
+				case got[p]:
+					w.bad, w.badSig = fmt.Sprintf("Predecessors(%d) during the block returned %d twice", n.ID, p), "pred-anytime-dup"
+				case !refs || !(w.pre[p] || w.inBlock[p]):
+					w.bad, w.badSig = fmt.Sprintf("Predecessors(%d) during the block returned %d, which does not reference it or was never pushed", n.ID, p), "pred-anytime-extra"
+				}
+				got[p] = true
+			}
+			if w.noMissing {
+				continue
+			}
+			must := func(p int, why string) {
+				for _, s := range g.Nodes[p].Succ {
+					if s == n.ID && !got[p] && w.bad == "" {
+						w.bad, w.badSig = fmt.Sprintf("Predecessors(%d) during the block omitted %d (%s)", n.ID, p, why), "pred-anytime-missing"
+					}
+				}
+			}
+			for p := range w.pre {
+				must(p, "stored before the block")
+			}
+			for _, p := range completed {
+				must(p, "its Push had returned before the query started")
+			}
+		}
+	}()
+	return w
+}
+
+func (w *blockWatch) pushed(i int) { w.done[i].Store(true) }
+
+func (w *blockWatch) finish() {
+	close(w.stop)
+	<-w.fin
+	run.Count("anytime-blocks")
+	if w.queries > 0 {
+		run.Count("anytime-blocks-with-queries")
+	}
+	if w.bad != "" {
+		w.e.fail(w.badSig, w.bad)
+	}
+}
+
 // storeObs: the observation compared with the store-level model after a sweep:
 // the stored set and every Predecessors answer.
 func (e *xstore) storeObs() []string {
@@ -679,7 +820,58 @@ func (e *xstore) storeObs() []string {
 			ids = append(ids, i)
 		}
 	}
-	return append([]string{"b:" + showInts(ids)}, e.lastSweep...)
+	out := []string{"b:" + showInts(ids)}
+	if e.kind == "oci" {
+		// the index.json on disk right now: which contents it lists, which of them under a name
+		listed, named, err := e.indexEntries()
+		if err != nil {
+			out = append(out, "i:err", "t:err")
+		} else {
+			out = append(out, "i:"+showInts(listed), "t:"+showInts(named))
+		}
+	}
+	return append(out, e.lastSweep...)
+}
+
+// sMarker: the observe operation of the store-level model: "S" also compares index.json.
+func (e *xstore) sMarker() string {
+	if e.kind == "oci" {
+		return "S"
+	}
+	return "s"
+}
+
+// indexEntries reads index.json with the harness's own decoder: distinct listed node ids and
+// the ones listed with a ref.name annotation.
+func (e *xstore) indexEntries() (listed, named []int, err error) {
+	data, err := os.ReadFile(filepath.Join(e.root, "index.json"))
+	if err != nil {
+		return nil, nil, err
+	}
+	var ix struct {
+		Manifests []ocispec.Descriptor `json:"manifests"`
+	}
+	if err := json.Unmarshal(data, &ix); err != nil {
+		return nil, nil, err
+	}
+	l, n := map[int]bool{}, map[int]bool{}
+	for _, d := range ix.Manifests {
+		id, ok := e.u.ids[keyOf(d)]
+		if !ok {
+			return nil, nil, fmt.Errorf("index.json names unknown content %s", d.Digest)
+		}
+		l[id] = true
+		if d.Annotations[ocispec.AnnotationRefName] != "" {
+			n[id] = true
+		}
+	}
+	for i := range l {
+		listed = append(listed, i)
+	}
+	for i := range n {
+		named = append(named, i)
+	}
+	return listed, named, nil
 }
 
 func (e *xstore) sweep(st content.PredecessorFinder, exister content.ReadOnlyStorage, what string, mops *[]string, toks *[]string) {
@@ -804,6 +996,18 @@ func (e *xstore) closure(roots []int) map[int]bool {
 	return in
 }
 
+// nameID numbers the tag names of a case for the model.
+func (e *xstore) nameID(nm string) int {
+	if e.nameIDs == nil {
+		e.nameIDs = map[string]int{}
+	}
+	if id, ok := e.nameIDs[nm]; ok {
+		return id
+	}
+	e.nameIDs[nm] = len(e.nameIDs)
+	return e.nameIDs[nm]
+}
+
 func (e *xstore) hasName(i int) bool {
 	for _, j := range e.tags {
 		if j == i {
@@ -900,6 +1104,14 @@ func (e *xstore) do(op string) {
 		if name != "cpush" {
 			close(start)
 		}
+		var watch *blockWatch
+		if name == "cpush" {
+			var all []int
+			for _, g := range groups {
+				all = append(all, g...)
+			}
+			watch = e.watchBlock(all, false)
+		}
 		for _, g := range groups {
 			wg.Add(1)
 			work := func(g []int) {
@@ -907,6 +1119,9 @@ func (e *xstore) do(op string) {
 				<-start // all goroutines of a concurrent block start together
 				for _, i := range g {
 					err := e.pushOne(i)
+					if watch != nil && (err == nil || errors.Is(err, errdef.ErrAlreadyExists)) && e.kind != "file" {
+						watch.pushed(i)
+					}
 					mu.Lock()
 					errs[i] = err
 					mu.Unlock()
@@ -922,6 +1137,9 @@ func (e *xstore) do(op string) {
 			close(start)
 		}
 		wg.Wait()
+		if watch != nil {
+			watch.finish()
+		}
 		for _, g := range groups {
 			for _, i := range g {
 				err := errs[i]
@@ -966,7 +1184,54 @@ func (e *xstore) do(op string) {
 				}
 			}
 		}
+	case "alg":
+		// the node is addressed by another digest algorithm (its descriptor, as embedded in the
+		// manifests that reference it, was built with it)
+		a, alg, _ := strings.Cut(arg, ":")
+		i, err := strconv.Atoi(a)
+		if err != nil || !e.valid(i) || !digest.Algorithm(alg).Available() {
+			return
+		}
+		e.u.g.Nodes[i].Desc.Digest = digest.Algorithm(alg).FromBytes(e.u.g.Nodes[i].Bytes)
+		e.u = newUniverse(e.u.g)
+		return
+	case "autosave":
+		if e.ociSt == nil {
+			return
+		}
+		e.ociSt.AutoSaveIndex = arg == "on"
+		wasOff := e.autoSaveOff
+		e.autoSaveOff = arg != "on"
+		if e.autoSaveOff {
+			e.sops = append(e.sops, "Y0")
+		} else {
+			e.sops = append(e.sops, "Y1")
+		}
+		run.Count("autosave-" + arg)
+		if wasOff && !e.autoSaveOff {
+			// switching the flag back on does not write the index: the caller saves what
+			// accumulated while it was off
+			e.do("saveindex")
+		}
+		return
+	case "saveindex":
+		if e.ociSt == nil {
+			return
+		}
+		if err := e.ociSt.SaveIndex(); err != nil {
+			e.fail("saveindex-error", fmt.Sprintf("SaveIndex: %v", err))
+		}
+		e.sops = append(e.sops, "W")
+		run.Count("saveindex")
+		return
 	case "foreign":
+		if e.ociSt != nil && e.autoSaveOff {
+			// the layout is closed properly before somebody else rewrites its index; the store that
+			// opens it afterwards starts with AutoSaveIndex on
+			e.do("saveindex")
+			e.autoSaveOff = false
+			e.sops = append(e.sops, "Y1")
+		}
 		// index.json rewritten the way other tools write a layout (and the way oras-go left it
 		// after GC before 34cefcb): only the tagged manifests and the manifests without a stored
 		// parent are listed; nested manifests are reachable through them only.  Followed by a reopen.
@@ -1043,6 +1308,16 @@ func (e *xstore) do(op string) {
 		var wg sync.WaitGroup
 		start := make(chan struct{})
 		st := e.ociSt
+		var blockPushes []int
+		blockDeletes := false
+		for _, it := range items {
+			if strings.HasPrefix(it, "x") {
+				blockDeletes = true
+			} else if i, err := strconv.Atoi(it); err == nil && e.valid(i) {
+				blockPushes = append(blockPushes, i)
+			}
+		}
+		watch := e.watchBlock(blockPushes, blockDeletes)
 		for k, it := range items {
 			wg.Add(1)
 			go func(k int, it string) {
@@ -1063,12 +1338,16 @@ func (e *xstore) do(op string) {
 				default:
 					if i, err := strconv.Atoi(it); err == nil && e.valid(i) && !e.u.g.Nodes[i].Foreign() {
 						errs[k] = e.pushOne(i)
+						if errs[k] == nil || errors.Is(errs[k], errdef.ErrAlreadyExists) {
+							watch.pushed(i)
+						}
 					}
 				}
 			}(k, it)
 		}
 		close(start)
 		wg.Wait()
+		watch.finish()
 		for k, it := range items {
 			err := errs[k]
 			switch {
@@ -1079,12 +1358,8 @@ func (e *xstore) do(op string) {
 					continue
 				}
 				if err == nil {
-					prev, had := e.tags[nm]
 					e.tags[nm] = i
-					if had && prev != i && !e.hasName(prev) {
-						e.sops = append(e.sops, fmt.Sprintf("U%d", prev))
-					}
-					e.sops = append(e.sops, fmt.Sprintf("T%d", i))
+					e.sops = append(e.sops, fmt.Sprintf("N%d=%d", i, e.nameID(nm)))
 				} else if e.stored[i] {
 					e.fail("tag-error", fmt.Sprintf("concurrent Tag(%d,%s): %v", i, nm, err))
 				}
@@ -1101,10 +1376,9 @@ func (e *xstore) do(op string) {
 				}
 				if had && err == nil {
 					delete(e.tags, nm)
-					if !e.hasName(i) {
-						e.sops = append(e.sops, fmt.Sprintf("U%d", i))
-					}
+					e.sops = append(e.sops, fmt.Sprintf("M%d", e.nameID(nm)))
 				}
+				_ = i
 			default:
 				i, cerr := strconv.Atoi(it)
 				if cerr != nil || !e.valid(i) || e.u.g.Nodes[i].Foreign() {
@@ -1136,12 +1410,10 @@ func (e *xstore) do(op string) {
 			return
 		}
 		if err := e.ociSt.Tag(ctx, e.u.g.Nodes[i].Desc, nm); err == nil {
-			prev, had := e.tags[nm]
 			e.tags[nm] = i
-			if had && prev != i && !e.hasName(prev) {
-				e.sops = append(e.sops, fmt.Sprintf("U%d", prev)) // the name moved away from prev
-			}
-			e.sops = append(e.sops, fmt.Sprintf("T%d", i))
+			// the model keeps the reference -> node map itself (a name that moves is taken from
+			// the node that had it)
+			e.sops = append(e.sops, fmt.Sprintf("N%d=%d", i, e.nameID(nm)))
 		} else if e.stored[i] {
 			e.fail("tag-error", fmt.Sprintf("Tag(%d,%s): %v", i, nm, err))
 		}
@@ -1156,10 +1428,9 @@ func (e *xstore) do(op string) {
 		}
 		if had && err == nil {
 			delete(e.tags, arg)
-			if !e.hasName(i) {
-				e.sops = append(e.sops, fmt.Sprintf("U%d", i))
-			}
+			e.sops = append(e.sops, fmt.Sprintf("M%d", e.nameID(arg)))
 		}
+		_ = i
 	case "delete":
 		i, _ := strconv.Atoi(arg)
 		if e.ociSt == nil || !e.valid(i) {
@@ -1215,17 +1486,20 @@ func (e *xstore) do(op string) {
 				}
 				e.script[len(e.script)-1] = "gc"
 				e.sweep(e.st, e.st, "after failed gc", &e.mops, &e.toks)
-				e.sops = append(e.sops, "S")
+				e.sops = append(e.sops, e.sMarker())
 				e.stoks = append(e.stoks, e.storeObs()...)
 				return
 			}
-		case <-time.After(30 * time.Second):
+		case <-time.After(15 * time.Second):
 			// a hang is C09's business (F1): not judged here; stop using this store
 			e.gcHung = true
 			if f1Present {
 				run.Count("gc-hang-not-judged")
 			} else if os.Getenv("C07_NO_CONFIRM") == "" && confirmHang(e.replay()) {
-				e.fail("gc-hang", "GC did not return within 30 s, and again not within 120 s in a fresh process replaying the same history")
+				e.fail("gc-hang", "GC did not return within 15 s, and again not within 60 s in a fresh process replaying the same history")
+				// the stuck goroutine cannot be stopped: report what was recorded and stop
+				run.Finish()
+				os.Exit(0)
 			} else {
 				run.Count("gc-hang-not-reproduced")
 			}
@@ -1254,12 +1528,46 @@ func (e *xstore) do(op string) {
 				}
 			}
 		}
-		// store-level model: the untagged manifests that survived are the ones gcIndex kept
-		// (as referrer roots or inside the rebuilt graph)
+		// store-level model: which untagged manifests gcIndex kept as roots.  With AutoSaveIndex on
+		// GC has just written index.json: its entries without a name are exactly those (plus the
+		// restored digest references, which the model adds itself).  Otherwise: the survivors.
+		savedAfterGC := false
+		if e.autoSaveOff {
+			// GC did not write index.json; save it now so that the roots gcIndex kept can be read
+			// (the model gets the SaveIndex step right after the GC step)
+			if err := e.ociSt.SaveIndex(); err != nil {
+				e.fail("saveindex-error", fmt.Sprintf("SaveIndex after GC: %v", err))
+			}
+			savedAfterGC = true
+		}
+		{
+			if listed, named, err := e.indexEntries(); err == nil {
+				isNamed := map[int]bool{}
+				for _, i := range named {
+					isNamed[i] = true
+				}
+				kept = nil
+				sort.Ints(listed)
+				for _, i := range listed {
+					if !isNamed[i] {
+						kept = append(kept, strconv.Itoa(i))
+					}
+				}
+			}
+		}
 		e.sops = append(e.sops, "G"+strings.Join(kept, "."))
+		if savedAfterGC {
+			e.sops = append(e.sops, "W")
+		}
 	case "reopen":
 		if e.ociSt == nil {
 			return
+		}
+		if e.autoSaveOff {
+			// the caller's duty with AutoSaveIndex off: save before the layout is read again
+			e.script = e.script[:len(e.script)-1]
+			e.do("saveindex")
+			e.script = append(e.script, op)
 		}
 		e.sawReopen = true
 		roots, err := e.indexRoots()
@@ -1277,6 +1585,10 @@ func (e *xstore) do(op string) {
 			s.AutoGC = e.autoGC
 			e.ociSt = s
 			e.st, e.push = s, s
+			if e.autoSaveOff {
+				e.autoSaveOff = false // a new Store starts with AutoSaveIndex = true
+				e.sops = append(e.sops, "Y1")
+			}
 			e.mops = append(e.mops, "Z")
 			for _, r := range roots {
 				e.mops = append(e.mops, fmt.Sprintf("A%d", r))
@@ -1317,7 +1629,7 @@ func (e *xstore) do(op string) {
 			run.Count("reopen-" + arg)
 			// store-level model: the history so far, then a reopen
 			sid := run.NewID()
-			sops := append(append([]string(nil), e.sops...), "O", "S")
+			sops := append(append([]string(nil), e.sops...), "O", e.sMarker())
 			stoks := append(append([]string(nil), e.stoks...), e.storeObs()...)
 			run.Case(sid, e.storeCaseLine(sops, "reopen"+arg+"-"+e.origin), strings.Join(stoks, " "))
 			return
@@ -1326,7 +1638,7 @@ func (e *xstore) do(op string) {
 	}
 	if !e.gcHung {
 		e.sweep(e.st, e.st, "after "+op, &e.mops, &e.toks)
-		e.sops = append(e.sops, "S")
+		e.sops = append(e.sops, e.sMarker())
 		e.stoks = append(e.stoks, e.storeObs()...)
 	}
 }
@@ -1615,8 +1927,17 @@ func genStore(r *common.Rand, kind string, origin string) {
 				}
 			}
 		case x < 84:
+			if e.autoSaveOff {
+				e.do(common.Pick(r, []string{"autosave:on", "saveindex", "saveindex"}))
+			} else {
+				e.do("autosave:off")
+			}
+		case x < 87:
 			e.do("foreign")
-			e.do("reopen:" + common.Pick(r, []string{"dir", "dir", "dir", "fs", "tar"}))
+			e.do("reopen:dir") // the model's foreign step includes the reopen of the directory
+			if r.Chance(1, 3) {
+				e.do("reopen:" + common.Pick(r, []string{"fs", "tar"}))
+			}
 		default:
 			e.do("reopen:" + common.Pick(r, []string{"dir", "dir", "fs", "tar"}))
 		}
@@ -1649,7 +1970,7 @@ func replayStore(rep storeReplay) {
 }
 
 // confirmHang replays a history in a fresh child process (a slow machine must not be
-// reported as a hanging GC): true iff the child does not finish within 120 s.
+// reported as a hanging GC): true iff the child does not finish within 60 s.
 func confirmHang(rep storeReplay) bool {
 	self, err := os.Executable()
 	if err != nil {
@@ -1675,7 +1996,7 @@ func confirmHang(rep storeReplay) bool {
 	select {
 	case <-done:
 		return false
-	case <-time.After(120 * time.Second):
+	case <-time.After(60 * time.Second):
 		cmd.Process.Kill()
 		<-done
 		return true
@@ -1742,7 +2063,82 @@ var exec_Command = exec.Command
 
 // ------------------------------------------------------------------ main
 
+// caseFromSeed runs one generated case under a watchdog: a case that does not return (a lock
+// never released, a goroutine waiting for ever) becomes an oracle failure with a replay
+// instead of a hanging check.  A slow machine is told apart by re-running the case in a fresh
+// child process before anything is reported.
 func caseFromSeed(part string, seed uint64) {
+	if os.Getenv("C07_NO_CONFIRM") != "" {
+		// confirmation child: the parent holds the clock
+		caseFromSeedBody(part, seed)
+		return
+	}
+	done := make(chan struct{})
+	go func() {
+		defer close(done)
+		caseFromSeedBody(part, seed)
+	}()
+	limit := 20 * time.Second
+	select {
+	case <-done:
+		return
+	case <-time.After(limit):
+	}
+	rep := map[string]any{"kind": "seed", "part": part, "seed": strconv.FormatUint(seed, 10)}
+	t0 := time.Now()
+	wedged := confirmWedge(rep)
+	how := "and again not in a fresh process"
+	if !wedged {
+		// A fresh process got through the same case (a wedge inside a concurrent block depends on
+		// the schedule), so the machine is not simply slow: the original gets three times the
+		// child's time on top, then it is reported.
+		select {
+		case <-done:
+			run.Count("watchdog-slow-case")
+			return
+		case <-time.After(3*time.Since(t0) + 10*time.Second):
+		}
+		how = "while a fresh process completed the same case in the meantime (schedule dependent)"
+	}
+	run.OracleFail(run.NewID(), "case-wedged", fmt.Sprintf("the %s case of seed %d did not return within %v, %s", part, seed, limit, how), rep)
+	run.Finish()
+	os.Exit(0) // the stuck goroutine cannot be stopped; what was recorded so far is judged
+}
+
+// confirmWedge replays a case in a child process: true iff it does not finish within 60 s.
+func confirmWedge(rep map[string]any) bool {
+	self, err := os.Executable()
+	if err != nil {
+		return true
+	}
+	dir, err := os.MkdirTemp("", "c07wedge")
+	if err != nil {
+		return true
+	}
+	defer os.RemoveAll(dir)
+	js, _ := json.Marshal(map[string]any{"cases": []any{rep}})
+	rp := filepath.Join(dir, "replay.json")
+	if os.WriteFile(rp, js, 0o644) != nil {
+		return true
+	}
+	cmd := exec_Command(self, "-seed", "1", "-tier", run.Tier, "-dir", filepath.Join(dir, "out"), "-replay", rp)
+	cmd.Env = append(os.Environ(), "C07_NO_CONFIRM=1")
+	if cmd.Start() != nil {
+		return true
+	}
+	done := make(chan error, 1)
+	go func() { done <- cmd.Wait() }()
+	select {
+	case <-done:
+		return false
+	case <-time.After(60 * time.Second):
+		cmd.Process.Kill()
+		<-done
+		return true
+	}
+}
+
+func caseFromSeedBody(part string, seed uint64) {
 	r := common.NewRand(seed)
 	origin := fmt.Sprintf("%s-seed-%d", part, seed)
 	switch part {
@@ -2034,19 +2430,36 @@ func genChain(r *common.Rand, origin string) {
 		enc = append(enc, dag.Encoded{Kind: kind, MediaType: mt, Bytes: b, Succ: succ, Subject: subject, TwinOf: -1})
 		return len(enc) - 1
 	}
+	// some nodes are addressed by sha512 / sha384 digests: other blob directory, blob paths
+	// longer than a classic tar header name (PAX records in the archive read by NewFromTar)
+	algs := map[int]digest.Algorithm{}
+	longDigests := r.Chance(1, 2)
 	descOf := func(i int) ocispec.Descriptor {
-		return content.NewDescriptorFromBytes(enc[i].MediaType, enc[i].Bytes)
+		d := content.NewDescriptorFromBytes(enc[i].MediaType, enc[i].Bytes)
+		if a, ok := algs[i]; ok {
+			d.Digest = a.FromBytes(enc[i].Bytes)
+		}
+		return d
+	}
+	pickAlg := func(i int) {
+		if longDigests && r.Chance(1, 2) {
+			algs[i] = common.Pick(r, []digest.Algorithm{digest.SHA512, digest.SHA512, digest.SHA384})
+		}
 	}
 	salt := r.U64()
 	cfg := add(dag.KConfig, ocispec.MediaTypeImageConfig, []byte(fmt.Sprintf(`{"verif":"%x"}`, salt)), nil, -1)
+	pickAlg(cfg)
 	layer := add(dag.KBlob, ocispec.MediaTypeImageLayer, []byte(fmt.Sprintf("layer-%x", salt)), nil, -1)
+	pickAlg(layer)
 	var images []int
 	for i := 0; i < 1+r.Intn(3); i++ {
 		m := ocispec.Manifest{MediaType: ocispec.MediaTypeImageManifest, Config: descOf(cfg), Layers: []ocispec.Descriptor{descOf(layer)},
 			Annotations: map[string]string{"verif.id": fmt.Sprintf("%d-%x", i, salt)}}
 		m.SchemaVersion = 2
 		b, _ := json.Marshal(m)
-		images = append(images, add(dag.KImage, ocispec.MediaTypeImageManifest, b, []int{cfg, layer}, -1))
+		id := add(dag.KImage, ocispec.MediaTypeImageManifest, b, []int{cfg, layer}, -1)
+		pickAlg(id)
+		images = append(images, id)
 	}
 	// a tower of indexes: level k lists the level below
 	level := images
@@ -2062,6 +2475,7 @@ func genChain(r *common.Rand, origin string) {
 		}
 		b, _ := json.Marshal(ix)
 		id := add(dag.KIndex, ocispec.MediaTypeImageIndex, b, succ, -1)
+		pickAlg(id)
 		tower = append(tower, id)
 		level = []int{id}
 	}
@@ -2072,12 +2486,25 @@ func genChain(r *common.Rand, origin string) {
 		panic(err)
 	}
 	defer e.close()
+	for i := 0; i < len(enc); i++ {
+		if a, ok := algs[i]; ok {
+			e.do(fmt.Sprintf("alg:%d:%s", i, a))
+		}
+	}
+	if len(algs) > 0 {
+		run.Count("chain-with-sha512-or-sha384")
+	}
 	order := make([]int, len(enc))
 	for i := range order {
 		order[i] = i
 	}
 	if r.Bool() {
 		common.Shuffle(r, order)
+	}
+	if r.Chance(1, 3) {
+		// everything below with AutoSaveIndex off: index.json is written by SaveIndex only
+		// (issued before every reopen)
+		e.do("autosave:off")
 	}
 	for _, i := range order {
 		e.do(fmt.Sprintf("push:%d", i))
@@ -2347,7 +2774,7 @@ func coverageFloors() []string {
 		"history-with-autogc-cascade": 5, "reopen-dir": 40, "reopen-fs": 15, "reopen-tar": 15,
 		"foreign-roots-only-index": 10, "push-concurrent": 40, "order-parents-first": 40,
 		"order-children-first": 40, "order-shuffled": 40, "query-absent-node-with-preds": 500,
-		"tag-non-manifest": 5, "delete-absent": 5, "phase2-concurrent-push": 10,
+		"chain-with-sha512-or-sha384": 8, "anytime-blocks-with-queries": 150, "tag-non-manifest": 5, "delete-absent": 5, "phase2-concurrent-push": 10, "autosave-off": 12, "saveindex": 8,
 		"links-dockermanifest": 40, "links-imagemanifest": 40, "links-dockerlist": 40, "links-imageindex": 40,
 		"links-artifact": 40, "links-other": 40,
 	}
